@@ -63,7 +63,7 @@ def run(ctx):
     fam = designs.family(ctx.tier, ctx.seed) + designs.wide_family(ctx.tier)
     sim_family(ctx, 'Simulation', fam, 'C01.simulation_vs_refsem',
                'pyrtl.Simulation disagrees with the documented cycle semantics',
-               'pyrtl.simulation.Simulation.step', reps=3 if ctx.tier == 'quick' else 6)
+               'pyrtl.simulation.Simulation.step', reps=3 if ctx.tier == 'quick' else 10)
     ctx.assume('Python int = mathematical integer; bit-operation rewrites of DESIGN 3.2 '
                '(lean/PyInt.lean); generator expressions evaluated eagerly')
     ctx.assume('WireVector.bitmask cache invariant: a cached _bitmask equals 2**bitwidth-1 '
